@@ -24,6 +24,7 @@ ASSUMPTIONS = ["permission (ro) is not enforced by indipy and not demanded", "on
 REQUIRED_EVENTS = ["sessions", "writes", "snapshots_compared", "targets_verified", "client_mirror_checks", "stale_pending_probes", "noop_write_probes",
                    "writes_Text", "writes_Number", "writes_Switch", "writes_BLOB", "multi_element_writes"]
 
+QUICK_SHARDS = 4
 MODES = ["whole", "1024", "1", "random", "small"]
 SEXA = ["1:30", "-0:30", "12:15:30", "10 30", "5;15", "-12:15:45.5", "0:0:1", "359:59:59.99", "10:30.5", "-0:00.25", "7:5.75"]
 
@@ -263,7 +264,7 @@ def one_case(ctx, case):
 
 
 def run(ctx):
-    n = 200 if not ctx.thorough else 30000
+    n = 600 if not ctx.thorough else 30000
     for i in range(n):
         if not ctx.mine(i):
             continue
